@@ -249,7 +249,13 @@ pub fn run(lines: &[Value], opts: &FlowOpts, trace_path: &str) -> Summary {
     use rand::seq::SliceRandom;
     let mut order: Vec<&Value> = lines.iter().filter(|i| !i["div"].as_bool().unwrap_or(false)).collect();
     order.shuffle(&mut rng);
-    order.sort_by_key(|i| if as_i64(&i["E"]) >= 2 { 0 } else { 1 });
+    // larger graphs first (at most a fifth of the budget), then the rest
+    order.sort_by_key(|i| if as_i64(&i["E"]) >= 5 { 0 } else if as_i64(&i["E"]) >= 2 { 1 } else { 2 });
+    let nbig = order.iter().filter(|i| as_i64(&i["E"]) >= 5 && as_i64(&i["L"]) >= 1 && as_i64(&i["dod"]) > 0).count();
+    if nbig > opts.max_graphs / 5 {
+        let cut = nbig - opts.max_graphs / 5;
+        order.drain(0..cut);
+    }
     for inst in order.into_iter() {
         if inst["div"].as_bool().unwrap_or(false) { continue; }
         let g = InstGraph::parse(&inst["g"]);
